@@ -199,7 +199,10 @@ def map_vs_model(y, pm, rot_tol=1e-12):
         eu = np.deg2rad(eu)
     exp_q = Rotation.from_euler(eu).data
     got_q = y.rotations.data.reshape(n, -1)
-    if got_q.shape != exp_q.shape or np.abs(got_q - exp_q).max(initial=0.0) > rot_tol:
+    # as rotations: q and -q are the same rotation (eu2qu makes the scalar part non-negative; for a scalar part within
+    # rounding of zero the sign depends on the last bit of the angles, e.g. after a float32 round trip of a vendor file)
+    if got_q.shape != exp_q.shape or (n and np.minimum(np.abs(got_q - exp_q).max(axis=1),
+                                                       np.abs(got_q + exp_q).max(axis=1)).max() > rot_tol):
         diffs.append("rotations differ from from_euler(model Euler angles)")
     names = [W.s_of(s) for s in pm["props"]]
     if list(y.prop.keys()) != names:
